@@ -71,7 +71,10 @@ def check_case(case):
 
     ga = np.array(g)
     refa = np.array([O.formfactor_ref(coef, s) for s in g])
-    for nm, arg in (("ndarray", ga), ("float64", np.float64(g[7])), ("0-d array", np.array(g[7])), ("2-d array", ga[:6].reshape(2, 3)), ("float32 array", ga[:50].astype(np.float32))):
+    kinds = [("ndarray", ga), ("float64", np.float64(g[7])), ("0-d array", np.array(g[7])), ("2-d array", ga[:6].reshape(2, 3)), ("float32 array", ga[:50].astype(np.float32)),
+             ("int 0", 0), ("int 1", 1), ("int 2", 2), ("np.int64", np.int64(1)), ("int array", np.arange(3)), ("bool", True), ("list-derived int array", np.array([0, 1, 2])),
+             ("uint8 array", np.array([0, 1, 2], dtype=np.uint8))]
+    for nm, arg in kinds:
         try:
             out = np.asarray(structure.FormFactor(el, arg), float)
             want = np.array([O.formfactor_ref(coef, float(s)) for s in np.asarray(arg, float).reshape(-1)]).reshape(np.shape(arg))
@@ -80,6 +83,26 @@ def check_case(case):
             dv = float("inf")
             out = repr(ex)
         r.check("formula-" + nm, dv, 1e-6 if nm == "float32 array" else 1e-12, el + ":formula:" + nm, "FormFactor = sum a_i exp(-b_i s^2) + c for %s argument" % nm, None, out if isinstance(out, str) else None)
+    # history: one work buffer reused with different contents (a memo keyed on object identity would return stale values),
+    # and the same buffer used for another element in between
+    from ..core import reuse
+
+    buf = np.array([0.0, 0.5, 1.0])
+    other = "FE" if el != "FE" else "C"
+
+    def mutate(b):
+        structure.FormFactor(other, b)
+        b += 0.25
+
+    reuse(r, el + ":buffer", lambda b: structure.FormFactor(el, b), buf, mutate,
+          lambda out: not isinstance(out, Exception) and np.allclose(np.asarray(out, float), [O.formfactor_ref(coef, s) for s in (0.25, 0.75, 1.25)], rtol=1e-12, atol=0),
+          "FormFactor evaluates the formula for the CURRENT contents of a reused array")
+    for k in range(3):
+        tmp = np.array([0.1 * (k + 1)])
+        out = structure.FormFactor(el, tmp)
+        r.check("formula-temporaries", abs(float(np.asarray(out).reshape(-1)[0]) - O.formfactor_ref(coef, 0.1 * (k + 1))), 1e-12, el + ":temporary%d" % k,
+                "FormFactor on short-lived temporaries (object addresses get reused)")
+        del tmp
     # analytic monotonicity: f'(s) = -2 s sum a_i b_i exp(-b_i s^2) < 0 for s>0 if all a_i b_i >= 0 and one > 0
     ab = [coef[i] * coef[i + 4] for i in range(4)]
     if all(x >= 0 for x in ab) and any(x > 0 for x in ab):
